@@ -17,11 +17,17 @@ OBLIGATIONS = [
     "KafVerif.C04.fetch_progress_after_loss",
     "KafVerif.C04.fetch_progress_after_loss_run",
     "KafVerif.C04.search_lookup_misses_hole",
+    "KafVerif.C04.restore_rejects_committed_without_index",
+    "KafVerif.C04.restore_rejects_after_index_loss",
+    "KafVerif.C04.restored_segments_indexed",
+    "KafVerif.C04.lenient_restore_no_progress",
     "KafVerif.C03.handouts_stable",
     "KafVerif.C03.shared_buffer_unstable",
 ]
 ASSUMPTIONS = base.ASSUMPTIONS + [
-    "every committed segment has a non-empty index (BuildSegment always writes the first entry)",
+    "every committed segment has a non-empty index (BuildSegment always writes the first entry); a restore never registers a segment without index entries "
+    "(restore_rejects_committed_without_index, restored_segments_indexed; validated by the orphans stream: lost index of a committed multi-batch segment + restart, "
+    "the reads that follow are judged whenever the implementation's restore succeeded)",
 ]
 TECHNIQUE = base.TECHNIQUE
 LEVEL_TEXT = ("Lean 4 theorems (also for segment lists with holes after object loss + restore: fetch_progress_after_loss), for every index interval, cache setting and every operation sequence whose accepted record sets declare their "
@@ -84,7 +90,10 @@ def run(ck):
     bins = ck.build_all()
     if bins is None:
         return
-    ck.cov["rule"] = ("(0) holes: 3-5 segments, the index object of a (mostly middle) segment deleted/corrupted or a segment object deleted, restart at a stale "
+    ck.cov["rule"] = ("(00) orphans: the index object of a COMMITTED multi-batch segment deleted/corrupted + restart above its base (the unchanged code refuses the "
+                      "partition; when the implementation's restore succeeds every read at every batch of that segment, limits below/at/above the distance from the "
+                      "segment start, cached and uncached, is judged), and half-uploaded flushes (orphans above the last valid segment); "
+                      "(0) holes: 3-5 segments, the index object of a (mostly middle) segment deleted/corrupted or a segment object deleted, restart at a stale "
                       "store offset (orphan rule of RestoreFromS3), reads at every segment/batch boundary in, before and after the hole, tail appended after the "
                       "restart, second loss round; every slice returned by Read re-compared with a private copy after every later op, two concurrent readers (read2); "
                       "(a) segment layouts (2-7 batches per segment, index interval in {100,3,2,7,1}, cache on/off, restart) read at the first "
@@ -97,6 +106,7 @@ def run(ck):
     ok = base.run_streams(ck, bins, "C04", DRIVER, [
         ("layouts", "st", layouts(ck, 24 if ck.quick() else 200)),
         ("holes", "st", base.holes_ops(ck, 10 if ck.quick() else 80)),
+        ("orphans", "st", base.orphan_ops(ck, 8 if ck.quick() else 80)),
         ("histories", "st", base.storage_ops(ck, ncases, nops)),
         ("broker", "br", base.broker_ops(ck, 6 if ck.quick() else 60, 60)),
     ])
